@@ -40,7 +40,7 @@ PW_CLASSES = {
     'pct': lambda t: f'%40{t}%2F',
     'mixed': lambda t: f'!:/?#{t}=&;,+',
 }
-USERS = {'plain': 'alice', 'dotted': 'a.b-c_d', 'pct': 'al%40ice', 'empty': '', 'digits': '007'}
+USERS = {'plain': 'alice', 'dotted': 'a.b-c_d', 'pct': 'al%40ice', 'empty': '', 'digits': '007', 'bang': 'ad!min'}
 
 
 class Capture(logging.Handler):
@@ -174,22 +174,33 @@ def gen_case(rng, k):
         pos, scheme = 'outputs', 'rtsp'
     else:
         pos = 'extra'
-    if pos != 'extra' and pwc in ('bang', 'mixed', 'query', 'hash'):
-        pwc = rng.choice(['plain', 'colon', 'slash', 'pct'])     # '!' ';' ',' would be parsed as option/topic/list syntax there
+    if pos != 'extra' and pwc in ('mixed', 'query', 'hash'):
+        pwc = rng.choice(['plain', 'colon', 'slash', 'pct', 'bang'])     # ';' ',' '?' would be parsed as topic/list/ephemeral syntax there; '!' inside a credential is supported by parse_options
     uri = f'{scheme}://{USERS[uc]}:{PW_CLASSES[pwc](token)}@{host}:8554/live/stream1'
     container = rng.choice(['string', 'comma_first', 'comma_middle', 'comma_last', 'comma_tight', 'list', 'tuple', 'dict', 'nested2', 'nested3', 'record', 'dict_key', 'nested_key'])
     cfg = json.loads(json.dumps(BASE[cname]))
+    cfg_defaults = {}
     other = 'rtsp://cam-plain.example/stream'
     if pos == 'extra':
         val = place(uri, other, container)
         cfg[rng.choice(['db', 'upstream_uri', 'model_uri', 'webhook'])] = val
     else:
-        opts = rng.choice(['', '', '!no-bgr']) if pos == 'sources' else rng.choice(['', '!fps=15'])
+        if pos == 'sources':
+            # any subset of the per-source options the class documents (each switches on its own code path with its own log lines)
+            opts = ''.join(o for o in ('!no-bgr', '!sync', '!loop', '!maxfps=10', '!maxsize=640x480', '!resize=320x240') if rng.random() < 0.25)
+            for key, val in (('sync', True), ('loop', True), ('bgr', False), ('maxfps', 15), ('maxsize', '320x200')):
+                if rng.random() < 0.12:
+                    cfg_defaults[key] = val          # filter-wide defaults of the same options
+        else:
+            opts = ''.join(o for o in ('!fps=15', '!segtime=1') if rng.random() < 0.3)
+            for key, val in (('fps', 10), ('segtime', 2), ('bgr', False)):
+                if rng.random() < 0.12:
+                    cfg_defaults[key] = val
         item = uri + opts + rng.choice(['', ';cam2']) if container != 'record' else None
         native_other = 'file://b.mp4;other' if pos == 'sources' else 'file://o2.mp4;other'
         if container == 'record':
             key = 'source' if pos == 'sources' else 'output'
-            rec = {key: uri, 'topic': 'main', 'options': {'bgr': False} if pos == 'sources' else {'fps': 15}}
+            rec = {key: uri, 'topic': 'main', 'options': ({k_: v_ for k_, v_ in (('bgr', False), ('sync', True), ('loop', True), ('maxfps', 10)) if rng.random() < 0.35} if pos == 'sources' else {'fps': 15})}
             cfg[pos] = [rec] if rng.random() < 0.5 else [rec, {key: native_other.split(';')[0], 'topic': 'other', 'options': {} if pos == 'sources' else {'fps': 15}}]
         elif container in ('comma_first', 'comma_middle', 'comma_last', 'comma_tight'):
             sep = ',' if container == 'comma_tight' else ', '
@@ -199,6 +210,7 @@ def gen_case(rng, k):
             container = 'list'
         else:
             cfg[pos] = item
+    cfg.update(cfg_defaults)
     invalid = rng.random() < 0.08
     if invalid:
         cfg['exit_after'] = ['not', 'valid']         # normalize_config raises -> the raw configuration is what gets logged
